@@ -54,6 +54,37 @@ Theorem C01_content_keys : forall memhash n1 n2 b,
   key_to_hash memhash n2 (HBytes b) = (memhash b, xxh64 b) /\ (xxh64 b < two64)%N.
 Proof. intros. split; [reflexivity|]. split; [reflexivity|apply xxh64_lt]. Qed.
 
+(* The two halves together, for the keys a user actually passes.  A value that was only ever written under the string /
+   []byte key with contents b1 is never returned by a Get of contents b2, provided XXH64 tells them apart (and the
+   reader's conflict hash is not the wildcard 0) - whatever the runtime's memhash does ... *)
+Theorem C01_content_keys_never_cross : forall memhash n1 n2 c maxCost bdur now0 mon sched l1 l2 tid b1 b2 v, 0 < now0 ->
+  let log := s_log (mrun c (init_state maxCost bdur now0 mon) sched) in
+  let k1 := key_to_hash memhash n1 (HStr b1) in
+  let k2 := key_to_hash memhash n2 (HBytes b2) in
+  xxh64 b2 <> 0%N -> xxh64 b1 <> xxh64 b2 ->
+  (forall tid' k cf cost ttl t, In (ECall tid' (OSet k cf v cost ttl) t) log -> k = fst k1 /\ cf = snd k1) ->
+  log <> l1 ++ ERet tid (OGet (fst k2) (snd k2)) (RVal v true) :: l2.
+Proof.
+  intros memhash n1 n2 c maxCost bdur now0 mon sched l1 l2 tid b1 b2 v Hpos log k1 k2 Hnz Hne Honly Hlog.
+  destruct (C01_no_cross_key c maxCost bdur now0 mon sched l1 l2 tid (fst k1) (snd k1) (fst k2) (snd k2) v Hpos Honly Hlog)
+    as [_ [H|H]]; cbn in H; congruence.
+Qed.
+
+(* ... and for integer keys with no proviso at all: different keys of one integer kind never share a value. *)
+Theorem C01_int_keys_never_cross : forall memhash n1 n2 c maxCost bdur now0 mon sched l1 l2 tid kd v1 v2 v, 0 < now0 ->
+  let log := s_log (mrun c (init_state maxCost bdur now0 mon) sched) in
+  let k1 := key_to_hash memhash n1 (HInt kd v1) in
+  let k2 := key_to_hash memhash n2 (HInt kd v2) in
+  in_range kd v1 -> in_range kd v2 -> v1 <> v2 ->
+  (forall tid' k cf cost ttl t, In (ECall tid' (OSet k cf v cost ttl) t) log -> k = fst k1 /\ cf = snd k1) ->
+  log <> l1 ++ ERet tid (OGet (fst k2) (snd k2)) (RVal v true) :: l2.
+Proof.
+  intros memhash n1 n2 c maxCost bdur now0 mon sched l1 l2 tid kd v1 v2 v Hpos log k1 k2 H1 H2 Hne Honly Hlog.
+  destruct (C01_no_cross_key c maxCost bdur now0 mon sched l1 l2 tid (fst k1) (snd k1) (fst k2) (snd k2) v Hpos Honly Hlog)
+    as [H _].
+  apply Hne. symmetry in H. exact (int_keys_exact memhash n1 n2 kd v1 v2 H1 H2 H).
+Qed.
+
 (* Non-vacuity: a schedule in which a Get hits. *)
 Definition c01_cfg : cfg :=
   {| c_cap := 4; c_bdur := 5; c_ignore_internal := true; c_item_size := 56; c_should := fun _ _ => true;
@@ -70,3 +101,5 @@ Print Assumptions C01_no_cross_key.
 Print Assumptions C01_int_keys_exact.
 Print Assumptions C01_int_keys_conflict0.
 Print Assumptions C01_content_keys.
+Print Assumptions C01_content_keys_never_cross.
+Print Assumptions C01_int_keys_never_cross.
